@@ -42,6 +42,9 @@ class P:
                 items.append(("CONV:%s:%s" % (ty, hz(n)), ("conv", ty, n)))
         # accessor x variant matrix
         vals = [mk_num(0, 5, 0), mk_num(1, 15, 1), "s(%s)" % hx("x"), "s()", "b(1)", "b(0)", "l()", "l(%s)" % mk_num(0, 1, 0), "m()", "m(b(1)=N)", "N"]
+        # near-miss values: a value of one type that LOOKS like another must still be rejected by the other type's accessor
+        vals += ["s(%s)" % hx(t) for t in ("12", "-3.50", "0", "+7", "1_000", "1e2", " 5", "0x10", "true", "false", "True", "[1]", "[]", "{}", "None", "null", "")]
+        vals += [mk_num(0, 0, 0), mk_num(0, 1, 0), "l(b(1))", "l(s(%s))" % hx("1"), "m(%s=%s)" % (mk_num(0, 1, 0), mk_num(0, 2, 0))]
         for acc in ("integer", "decimal", "string", "bool", "list", "float"):
             for v in vals: items.append(("ACC:%s:%s" % (acc, v), ("acc", acc, v)))
         ms = [0, 1, 3, 10, 100, 123000, 2**63 - 1, 2**63, 2**63 + 1, 2**64, 2**96 - 1, 10**28, 9223372036854775807000, 9223372036854775808000, 5 * 10**27]
